@@ -150,6 +150,145 @@ static int dispatch_hand(char **tok, int nt) {
   return 0;
 }
 
+/* ---- C19 history sessions (additive; no line of C18 starts with '@', '!mut', '!show', '!copy', '!drop' or carries a '$' argument) ----
+   The C twin of what harness/java/XrlDrv.java does with the objects the Java port hands out:
+     @<k> <function> <arg>* E    call an object-returning function, print the object as usual and KEEP it in slot k (the caller owns it)
+     !mut <k> E                  the caller writes into every array element and every scalar field of the object in slot k
+     !show <k> E                 print the object in slot k
+     !copy <j> <k> E             slot j = a deep copy of slot k made by the caller (Crystal_MakeCopy for crystals)
+     !drop <k> E                 release slot k with the library's release function
+     <crystal function> $<k> <arg>* E    the crystal function on the object in slot k instead of a fresh lookup
+   Every object the C library returns is a malloc'ed deep copy (property C15), so nothing the caller does to it can change a later answer. */
+enum { K_NONE, K_CD, K_CDN, K_RND, K_CS, K_LIST, K_STR, K_VALS };
+#define NSLOT 16
+static struct { int kind; void *p; int n; double d[4]; int lead; int has_lead; } slot[NSLOT];
+static void pr_cd(struct compoundData *cd) {
+  pr_i(cd->nElements); for (int i = 0; i < cd->nElements; i++) pr_i(cd->Elements[i]);
+  for (int i = 0; i < cd->nElements; i++) pr_d(cd->massFractions[i]); pr_d(cd->nAtomsAll);
+  for (int i = 0; i < cd->nElements; i++) pr_d(cd->nAtoms[i]); pr_d(cd->molarMass);
+}
+static void slot_drop(int k) {
+  switch (slot[k].kind) {
+    case K_CD: FreeCompoundData((struct compoundData *)slot[k].p); break;
+    case K_CDN: FreeCompoundDataNIST((struct compoundDataNIST *)slot[k].p); break;
+    case K_RND: FreeRadioNuclideData((struct radioNuclideData *)slot[k].p); break;
+    case K_CS: Crystal_Free((Crystal_Struct *)slot[k].p); break;
+    case K_LIST: { char **l = (char **)slot[k].p; for (int i = 0; i < slot[k].n; i++) xrlFree(l[i]); xrlFree(l); break; }
+    case K_STR: xrlFree(slot[k].p); break;
+    default: break;
+  }
+  slot[k].kind = K_NONE; slot[k].p = NULL; slot[k].n = 0; slot[k].has_lead = 0;
+}
+static void slot_show(int k) {
+  switch (slot[k].kind) {
+    case K_CD: pr_cd((struct compoundData *)slot[k].p); break;
+    case K_CDN: pr_cdn((struct compoundDataNIST *)slot[k].p); break;
+    case K_RND: pr_rnd((struct radioNuclideData *)slot[k].p); break;
+    case K_CS: pr_cs((Crystal_Struct *)slot[k].p); break;
+    case K_LIST: { char **l = (char **)slot[k].p; pr_i(slot[k].n); for (int i = 0; i < slot[k].n; i++) pr_s(l[i]); break; }
+    case K_STR: pr_s((char *)slot[k].p); break;
+    case K_VALS: if (slot[k].has_lead) pr_i(slot[k].lead); for (int i = 0; i < slot[k].n; i++) pr_d(slot[k].d[i]); break;
+    default: break;
+  }
+}
+static void mut_str(char *s) { for (; s && *s; s++) *s = '#'; }
+static int slot_mut(int k) {
+  int w = 0;
+#define MI(x) do { (x) = -(7770 + w); w++; } while (0)
+#define MD(x) do { (x) = -(1234.5 + w); w++; } while (0)
+  switch (slot[k].kind) {
+    case K_CD: { struct compoundData *c = (struct compoundData *)slot[k].p;
+      for (int i = 0; i < c->nElements; i++) { MI(c->Elements[i]); MD(c->massFractions[i]); MD(c->nAtoms[i]); } MD(c->nAtomsAll); MD(c->molarMass); break; }
+    case K_CDN: { struct compoundDataNIST *c = (struct compoundDataNIST *)slot[k].p;
+      for (int i = 0; i < c->nElements; i++) { MI(c->Elements[i]); MD(c->massFractions[i]); } MD(c->density); mut_str(c->name); w++; break; }
+    case K_RND: { struct radioNuclideData *r = (struct radioNuclideData *)slot[k].p;
+      for (int i = 0; i < r->nXrays; i++) { MI(r->XrayLines[i]); MD(r->XrayIntensities[i]); }
+      for (int i = 0; i < r->nGammas; i++) { MD(r->GammaEnergies[i]); MD(r->GammaIntensities[i]); }
+      MI(r->Z); MI(r->A); MI(r->N); MI(r->Z_xray); mut_str(r->name); w++; break; }
+    case K_CS: { Crystal_Struct *c = (Crystal_Struct *)slot[k].p;
+      for (int i = 0; i < c->n_atom; i++) { MI(c->atom[i].Zatom); MD(c->atom[i].fraction); MD(c->atom[i].x); MD(c->atom[i].y); MD(c->atom[i].z); }
+      MD(c->a); MD(c->b); MD(c->c); MD(c->alpha); MD(c->beta); MD(c->gamma); MD(c->volume); mut_str(c->name); w++; break; }
+    case K_LIST: { char **l = (char **)slot[k].p; for (int i = 0; i < slot[k].n; i++) { mut_str(l[i]); w++; } break; }
+    case K_STR: mut_str((char *)slot[k].p); w++; break;
+    case K_VALS: for (int i = 0; i < slot[k].n; i++) MD(slot[k].d[i]); break;
+    default: break;
+  }
+  return w;
+}
+static void *dupmem(const void *p, size_t n) { void *q = xrl_malloc(n ? n : 1); if (n) memcpy(q, p, n); return q; }
+static int slot_copy(int j, int k) {
+  if (j == k) return 0;
+  slot_drop(j);
+  slot[j] = slot[k];
+  switch (slot[k].kind) {
+    case K_CD: { struct compoundData *s = (struct compoundData *)slot[k].p, *c = (struct compoundData *)dupmem(s, sizeof *s);
+      c->Elements = (int *)dupmem(s->Elements, sizeof(int) * s->nElements); c->massFractions = (double *)dupmem(s->massFractions, sizeof(double) * s->nElements);
+      c->nAtoms = (double *)dupmem(s->nAtoms, sizeof(double) * s->nElements); slot[j].p = c; break; }
+    case K_CDN: { struct compoundDataNIST *s = (struct compoundDataNIST *)slot[k].p, *c = (struct compoundDataNIST *)dupmem(s, sizeof *s);
+      c->name = xrl_strdup(s->name); c->Elements = (int *)dupmem(s->Elements, sizeof(int) * s->nElements);
+      c->massFractions = (double *)dupmem(s->massFractions, sizeof(double) * s->nElements); slot[j].p = c; break; }
+    case K_RND: { struct radioNuclideData *s = (struct radioNuclideData *)slot[k].p, *c = (struct radioNuclideData *)dupmem(s, sizeof *s);
+      c->name = xrl_strdup(s->name); c->XrayLines = (int *)dupmem(s->XrayLines, sizeof(int) * s->nXrays); c->XrayIntensities = (double *)dupmem(s->XrayIntensities, sizeof(double) * s->nXrays);
+      c->GammaEnergies = (double *)dupmem(s->GammaEnergies, sizeof(double) * s->nGammas); c->GammaIntensities = (double *)dupmem(s->GammaIntensities, sizeof(double) * s->nGammas);
+      slot[j].p = c; break; }
+    case K_CS: slot[j].p = Crystal_MakeCopy((Crystal_Struct *)slot[k].p, NULL); if (!slot[j].p) { slot[j].kind = K_NONE; return 0; } break;
+    case K_LIST: { char **s = (char **)slot[k].p, **l = (char **)xrl_malloc(sizeof(char *) * (slot[k].n ? slot[k].n : 1));
+      for (int i = 0; i < slot[k].n; i++) l[i] = xrl_strdup(s[i]); slot[j].p = l; break; }
+    case K_STR: slot[j].p = xrl_strdup((char *)slot[k].p); break;
+    default: break;
+  }
+  return 1;
+}
+static int slot_no(const char *s) { int k = atoi(s); return (k >= 0 && k < NSLOT) ? k : -1; }
+static void keep(int k, int kind, void *p, int n) { slot_drop(k); slot[k].kind = kind; slot[k].p = p; slot[k].n = n; }
+static void keep_vals(int k, int has_lead, int lead, int n, const double *d) {
+  slot_drop(k); slot[k].kind = K_VALS; slot[k].n = n; slot[k].lead = lead; slot[k].has_lead = has_lead; for (int i = 0; i < n; i++) slot[k].d[i] = d[i];
+}
+static int dispatch_hist(char **tok, int nt) {
+  if (nt < 2) return 0;
+  if (tok[0][0] == '@') {              /* @<k> <function> <arg>* E */
+    int k = slot_no(tok[0] + 1); if (k < 0) return 0;
+    tok++; nt--;
+    if (IS("CompoundParser", 1)) { char *s = ps(tok[1]); BEGIN(); struct compoundData *c = CompoundParser(s, &e); if (c) { pr_cd(c); keep(k, K_CD, c, 0); } END(); return 1; }
+    if (IS("AtomicNumberToSymbol", 1)) { int Z = atoi(tok[1]); BEGIN(); char *r = AtomicNumberToSymbol(Z, &e); if (r) { pr_s(r); keep(k, K_STR, r, 0); } END(); return 1; }
+    if (IS("GetCompoundDataNISTByName", 1)) { char *s = ps(tok[1]); BEGIN(); struct compoundDataNIST *c = GetCompoundDataNISTByName(s, &e); if (c) { pr_cdn(c); keep(k, K_CDN, c, 0); } END(); return 1; }
+    if (IS("GetCompoundDataNISTByIndex", 1)) { int i = atoi(tok[1]); BEGIN(); struct compoundDataNIST *c = GetCompoundDataNISTByIndex(i, &e); if (c) { pr_cdn(c); keep(k, K_CDN, c, 0); } END(); return 1; }
+    if (IS("GetRadioNuclideDataByName", 1)) { char *s = ps(tok[1]); BEGIN(); struct radioNuclideData *c = GetRadioNuclideDataByName(s, &e); if (c) { pr_rnd(c); keep(k, K_RND, c, 0); } END(); return 1; }
+    if (IS("GetRadioNuclideDataByIndex", 1)) { int i = atoi(tok[1]); BEGIN(); struct radioNuclideData *c = GetRadioNuclideDataByIndex(i, &e); if (c) { pr_rnd(c); keep(k, K_RND, c, 0); } END(); return 1; }
+    if (IS("GetCompoundDataNISTList", 0) || IS("GetRadioNuclideDataList", 0) || IS("Crystal_GetCrystalsList", 0)) {
+      BEGIN(); int n = 0; char **l = tok[0][3] == 'C' ? GetCompoundDataNISTList(&n, &e) : tok[0][3] == 'R' ? GetRadioNuclideDataList(&n, &e) : Crystal_GetCrystalsList(carr, &n, &e);
+      if (l) { keep(k, K_LIST, l, n); slot_show(k); } END(); return 1; }
+    if (IS("Crystal_GetCrystal", 1)) { char *s = ps(tok[1]); BEGIN(); Crystal_Struct *c = Crystal_GetCrystal(s, carr, &e); if (c) { pr_cs(c); keep(k, K_CS, c, 0); } END(); return 1; }
+    if (IS("Refractive_Index", 3)) { char *s = ps(tok[1]); double E = pd(tok[2]), d = pd(tok[3]); BEGIN(); xrlComplex r = Refractive_Index(s, E, d, &e); pr_d(r.re); pr_d(r.im);
+      if (!e) { double v[2] = {r.re, r.im}; keep_vals(k, 0, 0, 2, v); } END(); return 1; }
+    if (IS("Atomic_Factors", 4)) { int Z = atoi(tok[1]); double E = pd(tok[2]), q = pd(tok[3]), df = pd(tok[4]); double v[3] = {0, 0, 0};
+      BEGIN(); int r = Atomic_Factors(Z, E, q, df, &v[0], &v[1], &v[2], &e); pr_i(r); if (r) { pr_d(v[0]); pr_d(v[1]); pr_d(v[2]); keep_vals(k, 1, r, 3, v); } END(); return 1; }
+    if (IS("Crystal_F_H_StructureFactor", 7) || IS("Crystal_F_H_StructureFactor_Partial", 10)) {
+      char *s = ps(tok[1]); BEGIN(); Crystal_Struct *c = Crystal_GetCrystal(s, carr, &e);
+      if (c) { xrlComplex r = nt == 9 ? Crystal_F_H_StructureFactor(c, pd(tok[2]), atoi(tok[3]), atoi(tok[4]), atoi(tok[5]), pd(tok[6]), pd(tok[7]), &e)
+                                     : Crystal_F_H_StructureFactor_Partial(c, pd(tok[2]), atoi(tok[3]), atoi(tok[4]), atoi(tok[5]), pd(tok[6]), pd(tok[7]), atoi(tok[8]), atoi(tok[9]), atoi(tok[10]), &e);
+        pr_d(r.re); pr_d(r.im); if (!e) { double v[2] = {r.re, r.im}; keep_vals(k, 0, 0, 2, v); } Crystal_Free(c); }
+      END(); return 1; }
+    return 0;
+  }
+  if (!strcmp(tok[0], "!mut") && nt == 3) { int k = slot_no(tok[1]); if (k < 0) return 0; BEGIN(); pr_i(slot_mut(k)); END(); return 1; }
+  if (!strcmp(tok[0], "!show") && nt == 3) { int k = slot_no(tok[1]); if (k < 0 || slot[k].kind == K_NONE) return 0; BEGIN(); slot_show(k); END(); return 1; }
+  if (!strcmp(tok[0], "!drop") && nt == 3) { int k = slot_no(tok[1]); if (k < 0) return 0; BEGIN(); slot_drop(k); pr_i(0); END(); return 1; }
+  if (!strcmp(tok[0], "!copy") && nt == 4) { int j = slot_no(tok[1]), k = slot_no(tok[2]); if (j < 0 || k < 0) return 0; BEGIN(); pr_i(slot_copy(j, k)); END(); return 1; }
+  if (tok[1][0] == '$') {              /* crystal function on a kept object */
+    int k = slot_no(tok[1] + 1); if (k < 0 || slot[k].kind != K_CS) return 0;
+    Crystal_Struct *c = (Crystal_Struct *)slot[k].p;
+    if (IS("Bragg_angle", 5)) { BEGIN(); pr_d(Bragg_angle(c, pd(tok[2]), atoi(tok[3]), atoi(tok[4]), atoi(tok[5]), &e)); END(); return 1; }
+    if (IS("Q_scattering_amplitude", 6)) { BEGIN(); pr_d(Q_scattering_amplitude(c, pd(tok[2]), atoi(tok[3]), atoi(tok[4]), atoi(tok[5]), pd(tok[6]), &e)); END(); return 1; }
+    if (IS("Crystal_F_H_StructureFactor", 7)) { BEGIN(); xrlComplex r = Crystal_F_H_StructureFactor(c, pd(tok[2]), atoi(tok[3]), atoi(tok[4]), atoi(tok[5]), pd(tok[6]), pd(tok[7]), &e); pr_d(r.re); pr_d(r.im); END(); return 1; }
+    if (IS("Crystal_F_H_StructureFactor_Partial", 10)) { BEGIN(); xrlComplex r = Crystal_F_H_StructureFactor_Partial(c, pd(tok[2]), atoi(tok[3]), atoi(tok[4]), atoi(tok[5]), pd(tok[6]), pd(tok[7]), atoi(tok[8]), atoi(tok[9]), atoi(tok[10]), &e); pr_d(r.re); pr_d(r.im); END(); return 1; }
+    if (IS("Crystal_UnitCellVolume", 1)) { BEGIN(); pr_d(Crystal_UnitCellVolume(c, &e)); END(); return 1; }
+    if (IS("Crystal_dSpacing", 4)) { BEGIN(); pr_d(Crystal_dSpacing(c, atoi(tok[2]), atoi(tok[3]), atoi(tok[4]), &e)); END(); return 1; }
+    return 0;
+  }
+  return 0;
+}
+
 int main(void) {
   static char line[1 << 16];
   char *tok[64];
@@ -165,7 +304,7 @@ int main(void) {
     int nt = 0;
     for (char *p = strtok(line, " \n"); p && nt < 64; p = strtok(NULL, " \n")) tok[nt++] = p;
     if (nt == 0) continue;
-    if (!dispatch_gen(tok, nt) && !dispatch_hand(tok, nt)) printf("bad-op\n");
+    if (!dispatch_hist(tok, nt) && !dispatch_gen(tok, nt) && !dispatch_hand(tok, nt)) printf("bad-op\n");
     fflush(stdout);
   }
   return 0;
